@@ -8,7 +8,8 @@
     O <type> <ha> <active> <name>
     H <name>            | <sdbm> | <sdbm>
     B <node> <start>    | <obsA> | <obsB>        obs = `-` (node not started) or `p:pc:rc:sp:ex:st,...` per object
-    K <node> <peer> <up>| <obsA> | <obsB>
+    K <node> <peer> <up> [<conn#>] | <obsA> | <obsB>     connection number conn# (default 0) attached / removed
+    S <node> <start>    | <obsA> | <obsB>        restart through the state file
     U <node> <now>      | <obsA> | <obsB>
     X <node> <obj> <now>| <obsA> | <obsB>        two overlapping authority runs = one
     N <node> <now>      | <obsA> | <obsB>        notification requested
@@ -81,6 +82,7 @@ structure DSt where
   caseNo : Nat := 0
   caseFailed : Bool := false
   caseSplit : Bool := false
+  notes : List String := []         -- disagreements found while interpreting an event, printed by `finish`
   -- statistics
   steps : Nat := 0
   updates : Nat := 0
@@ -105,6 +107,10 @@ structure DSt where
   releases : Nat := 0
   held : Nat := 0
   endpointScrambles : Nat := 0
+  stateRestarts : Nat := 0
+  specOffCases : Nat := 0
+  extraConns : Nat := 0
+  closedOneOfSeveral : Nat := 0
   casesN : Nat := 0
   casesS : Nat := 0
   casesP : Nat := 0
@@ -123,8 +129,15 @@ def zoneFor (d : DSt) (s : Side) : Option (List Name) :=
   | _ => some d.names
 
 def mkNode (d : DSt) (s : Side) (start : Int) : Node :=
-  { zone := zoneFor d s, self := d.names.getD (sideIdx s) [], conn := [], start := start,
+  { zone := zoneFor d s, self := d.names.getD (sideIdx s) [], clients := [], start := start,
     objs := d.cfgs.toList.map fresh, updated := false, endpoint := d.layoutCh != "N" }
+
+/-- Restart through the state file: new objects, the attributes with the `state` flag restored from the old ones. -/
+def mkNodeFrom (d : DSt) (s : Side) (start : Int) (old : Option Node) (keeps : List Bool) : Node :=
+  match old with
+  | none => mkNode d s start
+  | some o => { mkNode d s start with
+      objs := List.zipWith (fun (cx : ObjCfg × Obj) k => restart cx.1 cx.2 k) (d.cfgs.toList.zip o.objs) keeps }
 
 def getNode (d : DSt) : Side → Option Node | .A => d.nodeA | .B => d.nodeB
 def setNode (d : DSt) (s : Side) (n : Option Node) : DSt :=
@@ -156,7 +169,7 @@ def countVerdicts (d : DSt) (node : Node) (now : Int) : DSt := Id.run do
   let mut d := d
   for c in d.cfgs do
     if touched c then
-      match authority node.zone node.self (fun e => node.conn.contains e) node.start now c.name with
+      match authority node.zone node.self (connectedTo node.clients) node.start now c.name with
       | .keep => d := { d with vKeep := d.vKeep + 1 }
       | .set true => d := { d with vTrue := d.vTrue + 1 }
       | .set false => d := { d with vFalse := d.vFalse + 1 }
@@ -212,7 +225,8 @@ def split3 (ws : List String) : List String × List String × List String :=
   (p, a, b)
 
 /-- Interpret one event line on the model: new driver state and the event as the specification sees it. -/
-def applyEvent (d : DSt) (s : Side) (op : String) (pre : List String) : Option (DSt × (Nat → Ev)) :=
+def applyEvent (d : DSt) (s : Side) (op : String) (pre : List String) (own : Option (List ImplObj) := none) :
+    Option (DSt × (Nat → Ev)) :=
   let all (r : Option (DSt × Ev)) : Option (DSt × (Nat → Ev)) := r.map fun (d, e) => (d, fun _ => e)
   match op, pre with
   | "X", [_, _, _idx, now] =>
@@ -262,28 +276,53 @@ def applyEvent (d : DSt) (s : Side) (op : String) (pre : List String) : Option (
       some ({ d with ntimers := d.ntimers + 1 }, fun _ => Ev.ntimer s)
     | none => none
   | "T-", [_] => some ({ d with timerIdle := d.timerIdle + 1 }, fun _ => Ev.idle s)
+  | "S", [_, _, st] =>
+    match parseInt? st with
+    | some st =>
+      -- a node that was not running has no state file: a plain start
+      match getNode d s with
+      | none =>
+        let d := setNode d s (some (mkNode d s st))
+        some ({ d with boots := d.boots + 1 }, fun _ => Ev.boot s st false)
+      | some old =>
+        -- oracle input (the property does not say which internal bookkeeping survives a restart): did the state file's entry
+        -- find its object again?  (An object whose name is not valid UTF-8 does not: the file is JSON.)  Read off the stash.
+        let stashes : List Nat := match own with | some l => l.map (·.o.stash) | none => old.objs.map (·.stash)
+        let keeps := List.zipWith (fun (x : Obj) (k : Nat) => x.stash == k) old.objs stashes
+        let bad := (List.zipWith (fun (x : Obj) (k : Nat) => k != 0 && k != x.stash) old.objs stashes).any id
+        let d := if bad then { d with notes := "what=stash-after-restore" :: d.notes } else d
+        let d := setNode d s (some (mkNodeFrom d s st (some old) keeps))
+        some ({ d with boots := d.boots + 1, stateRestarts := d.stateRestarts + 1 }, fun i => Ev.boot s st (keeps.getD i false))
+    | none => none
   | _, _ => all <| match op, pre with
   | "B", [_, _, st] =>
     match parseInt? st with
     | some st =>
       let d := setNode d s (some (mkNode d s st))
-      some ({ d with boots := d.boots + 1 }, Ev.boot s st)
+      some ({ d with boots := d.boots + 1 }, Ev.boot s st false)
     | none => none
-  | "K", [_, _, peer, up] =>
-    match parseNat? peer, parseBool? up with
-    | some peer, some up =>
+  | "K", _ :: _ :: peer :: up :: rest =>
+    let cn : Option Nat := match rest with | [] => some 0 | [c] => parseNat? c | _ => none
+    match parseNat? peer, parseBool? up, cn with
+    | some peer, some up, some cn =>
       let d := { d with links := d.links + 1 }
       match getNode d s with
       | some node =>
         if d.layoutCh != "N" && peer < d.names.length && peer != sideIdx s then
           let pn := d.names.getD peer []
-          let conn := if up then (if node.conn.contains pn then node.conn else pn :: node.conn)
-                      else node.conn.filter (· != pn)
-          let d := setNode d s (some { node with conn := conn })
-          if peer == 1 - sideIdx s then some (d, Ev.link s up) else some (d, Ev.idle s)
+          let node' := node.link pn cn up
+          let d := if up && connectedTo node.clients pn && node'.clients.length > node.clients.length
+            then { d with extraConns := d.extraConns + 1 } else d
+          let d := if !up && connectedTo node'.clients pn && node'.clients.length < node.clients.length
+            then { d with closedOneOfSeveral := d.closedOneOfSeveral + 1 } else d
+          let d := setNode d s (some node')
+          -- a further member of the zone (one that never runs as a process) becomes visible: from here on the case is outside the
+          -- two-member specification (theorem `unseen_members_do_not_matter` covers it up to here); the model comparison goes on
+          let d := if peer ≥ 2 && up then { d with specOn := false, specOffCases := d.specOffCases + (if d.specOn then 1 else 0) } else d
+          if peer == 1 - sideIdx s then some (d, Ev.link s cn up) else some (d, Ev.idle s)
         else some (d, Ev.idle s)
       | none => some (d, Ev.idle s)
-    | _, _ => none
+    | _, _, _ => none
   | "U", [_, _, now] =>
     match parseInt? now, getNode d s with
     | some now, some node =>
@@ -298,6 +337,10 @@ def applyEvent (d : DSt) (s : Side) (op : String) (pre : List String) : Option (
     disagreement (so that one divergence is reported once). -/
 def finish (d : DSt) (n : Nat) (ef : Nat → Ev) (ia ib : Option (List ImplObj)) : IO DSt := do
   let mut d := d
+  for note in d.notes do
+    IO.println s!"MISMATCH line={n} case={d.caseNo} {note}"
+    d := { d with mismatches := d.mismatches + 1 }
+  d := { d with notes := [] }
   d ← cmpNode d n "A" d.nodeA ia
   d ← cmpNode d n "B" d.nodeB ib
   d ← runSpec d n ef ia ib
@@ -321,7 +364,7 @@ def handle (d : DSt) (n : Nat) (line : String) : IO DSt := do
       let eps := if lay == "P" then eps else eps.take 2
       let d := { d with layout := layout, layoutCh := lay, names := eps, nExtra := (if lay == "P" then nx else 0),
                         cfgs := #[], nodeA := none, nodeB := none, specs := #[],
-                        specOn := !(lay == "P" && nx > 0), caseNo := d.caseNo + 1, caseFailed := false, caseSplit := false }
+                        specOn := true, caseNo := d.caseNo + 1, caseFailed := false, caseSplit := false }
       let d := match lay with
         | "N" => { d with casesN := d.casesN + 1 }
         | "S" => { d with casesS := d.casesS + 1 }
@@ -378,7 +421,7 @@ def handle (d : DSt) (n : Nat) (line : String) : IO DSt := do
         | [oa], [ob] =>
           match parseObs oa, parseObs ob with
           | some ia, some ib =>
-            match applyEvent d s op pre with
+            match applyEvent d s op pre (match s with | .A => ia | .B => ib) with
             | none => bad
             | some (d0, ef) => finish d0 n ef ia ib
           | _, _ => bad
@@ -388,4 +431,4 @@ def handle (d : DSt) (n : Nat) (line : String) : IO DSt := do
 def main : IO Unit := do
   let stdin ← IO.getStdin
   let d ← foldLines stdin handle ({} : DSt)
-  IO.println s!"STATS cases={d.caseNo} steps={d.steps} updates={d.updates} timer_fired={d.timerFired} timer_idle={d.timerIdle} boots={d.boots} links={d.links} hashes={d.hashes} hashes_with_negative_char={d.hashNeg} objects={d.objects} object_observations={d.objChecks} verdict_keep={d.vKeep} verdict_true={d.vTrue} verdict_false={d.vFalse} settled_rows={d.settledRows} races={d.races} requests={d.requests} notification_timer_runs={d.ntimers} due_checks={d.dues} work_events_on_paused_object={d.silentChecks} checks_held_in_flight={d.held} endpoint_state_scrambles={d.endpointScrambles} cases_nozone={d.casesN} cases_single={d.casesS} cases_pair={d.casesP} cases_pair_extra={d.casesExtra} nontrivial={d.nontrivial} mismatches={d.mismatches} specfails={d.specfails}"
+  IO.println s!"STATS cases={d.caseNo} steps={d.steps} updates={d.updates} timer_fired={d.timerFired} timer_idle={d.timerIdle} boots={d.boots} links={d.links} hashes={d.hashes} hashes_with_negative_char={d.hashNeg} objects={d.objects} object_observations={d.objChecks} verdict_keep={d.vKeep} verdict_true={d.vTrue} verdict_false={d.vFalse} settled_rows={d.settledRows} races={d.races} requests={d.requests} notification_timer_runs={d.ntimers} due_checks={d.dues} work_events_on_paused_object={d.silentChecks} checks_held_in_flight={d.held} endpoint_state_scrambles={d.endpointScrambles} restarts_via_state_file={d.stateRestarts} further_connections_attached={d.extraConns} one_of_several_connections_closed={d.closedOneOfSeveral} cases_nozone={d.casesN} cases_single={d.casesS} cases_pair={d.casesP} cases_pair_extra={d.casesExtra} cases_pair_extra_left_to_model_comparison={d.specOffCases} nontrivial={d.nontrivial} mismatches={d.mismatches} specfails={d.specfails}"
